@@ -30,6 +30,7 @@ func scenarios() []*sess.Scenario {
 
 func main() {
 	run := vr.New("C09", "model_checking")
+	defer run.Recover()
 	run.Rule("executions = complete schedules of the real client (callers, receive loop, acknowledgement one-shots) x server answer choices (order, containers of <=3 in any order, gzip), enumerated depth-first with delay bound D (non-default thread choices) and server-deviation bound E; an execution is non-trivial when at least one caller returned; distinct = distinct choice list")
 	run.Assume("cooperative scheduler models sync.Mutex/RWMutex, unbuffered/buffered channels, closed ctx.Done channels; every Conn.Write is a scheduling point; the in-memory Conn mimics tcpConn (exact-count reads, EOF, context.Canceled)",
 		"reference server R5 opens every frame with an independent MTProto 1.0 implementation; test requests are harness-local constructors registered with the decoder",
